@@ -21,10 +21,12 @@ for id in "${ids[@]}"; do
   case $id in
     C05b|C05c) export VERIF_VDENSE=region/compressor.go,region/multi.go,hrpc/mutate.go,hrpc/get.go,hrpc/scan.go; extra=" (statement-dense build)";;
     C02h) export VERIF_VDENSE=region/client.go,region/multi.go; extra=" (statement-dense build)";;
+    C06k) export VERIF_VDENSE=scanner.go,hrpc/scan.go,hrpc/query.go,hrpc/call.go; extra=" (statement-dense build)";;
     *) unset VERIF_VDENSE;;
   esac
   case $id in
     C08f) prof=c06; extra=" (C08 leg over the scan workload)";;
+    C18i) prof=c18wc; extra=" (whole-client C18 leg)";;
     C08g) prof=c20; extra=" (C08 leg over the shared-connection workload)";;
   esac
   unset RACE RACECTL
